@@ -108,6 +108,23 @@ func (vm *VM) errIndexOutOfRange() runtimeError {
 	return runtimeError(s)
 }
 
+// errMakeSliceOutOfRange returns a len or cap out of range runtime error for
+// the currently running MakeSlice instruction, whose allocation size is out
+// of range.
+func (vm *VM) errMakeSliceOutOfRange() runtimeError {
+	const maxAlloc = 1 << 48
+	in := vm.fn.Body[vm.pc-1]
+	var length int
+	if in.B > 0 {
+		next := vm.fn.Body[vm.pc]
+		length = int(vm.intk(next.A, in.B&(1<<1) != 0))
+	}
+	if size := vm.fn.Types[uint8(in.A)].Elem().Size(); size > 0 && uint64(length) > maxAlloc/uint64(size) {
+		return runtimeError("runtime error: makeslice: len out of range")
+	}
+	return runtimeError("runtime error: makeslice: cap out of range")
+}
+
 // newPanic returns a new *PanicError with the given error message.
 func (vm *VM) newPanic(msg any) *PanicError {
 	return &PanicError{
@@ -159,6 +176,15 @@ func (vm *VM) convertPanic(msg any) error {
 			// TODO: check env.
 			return msg
 		case runtime.Error:
+			// A value method of a native type has been called using a nil
+			// pointer.
+			if s := msg.Error(); strings.HasPrefix(s, "value method ") && strings.HasSuffix(s, " pointer") {
+				return vm.newPanic(errNilPointer)
+			}
+			// panic(nil) has been called.
+			if _, ok := msg.(*runtime.PanicNilError); ok {
+				return vm.newPanic(msg)
+			}
 			// TODO: check env.
 			break
 		default:
@@ -204,20 +230,48 @@ func (vm *VM) convertPanic(msg any) error {
 			}
 		}
 	case OpMakeChan, -OpMakeChan:
-		if err, ok := msg.(string); ok && err == "reflect.MakeChan: negative buffer size" {
-			return vm.newPanic(runtimeError("makechan: size out of range"))
+		switch err := msg.(type) {
+		case string:
+			if err == "reflect.MakeChan: negative buffer size" {
+				return vm.newPanic(runtimeError("makechan: size out of range"))
+			}
+		case runtime.Error:
+			if s := err.Error(); s == "makechan: size out of range" {
+				return vm.newPanic(runtimeError(s))
+			}
 		}
 	case OpMakeSlice:
-		if err, ok := msg.(string); ok {
+		switch err := msg.(type) {
+		case string:
 			switch err {
 			case "reflect.MakeSlice: negative len":
 				return vm.newPanic(runtimeError("runtime error: makeslice: len out of range"))
 			case "reflect.MakeSlice: negative cap", "reflect.MakeSlice: len > cap":
 				return vm.newPanic(runtimeError("runtime error: makeslice: cap out of range"))
 			}
+		case runtime.Error:
+			if err.Error() == "runtime: allocation size out of range" {
+				return vm.newPanic(vm.errMakeSliceOutOfRange())
+			}
+		}
+	case OpMapIndex, -OpMapIndex, OpMapIndexAny, -OpMapIndexAny:
+		if err, ok := msg.(runtime.Error); ok {
+			s := err.Error()
+			if strings.HasPrefix(s, "hash of unhashable type: ") ||
+				strings.HasPrefix(s, "runtime error: hash of unhashable type ") {
+				return vm.newPanic(runtimeError(s))
+			}
 		}
 	case OpPanic:
 		return vm.newPanic(msg)
+	case OpSelect:
+		// Discard the cases so that they are not seen by the next select.
+		vm.cases = vm.cases[:0]
+		if err, ok := msg.(runtime.Error); ok {
+			if s := err.Error(); s == "send on closed channel" {
+				return vm.newPanic(runtimeError(s))
+			}
+		}
 	case OpSend, -OpSend:
 		switch err := msg.(type) {
 		case runtime.Error:
@@ -237,6 +291,9 @@ func (vm *VM) convertPanic(msg any) error {
 				return vm.newPanic(runtimeError(s))
 			}
 		}
+	case OpShow, -OpShow:
+		// The value to show, for example its String method, has panicked.
+		return vm.newPanic(msg)
 	case OpSlice, OpStringSlice:
 		// https://github.com/open2b/scriggo/issues/321
 		switch err := msg.(type) {
